@@ -589,7 +589,7 @@ func (w *World) unitDone(cs *connState, buf []byte, ret int, err sipsp.ErrorHdr,
 			}
 		}
 		if w.mon.C10 {
-			if d := oracle.C10Msg(&md.M, buf, err); d != "" {
+			if d := oracle.C10Msg(&md.M, buf, err, cs.c.Clean && !cs.tainted); d != "" {
 				w.fail(cs, "C10", "numeric", d)
 				return
 			}
@@ -627,7 +627,7 @@ func (w *World) unitDone(cs *connState, buf []byte, ret int, err sipsp.ErrorHdr,
 		}
 	}
 	if !isMsg && definitive && w.mon.C10 {
-		if d := oracle.C10Sub(cs.c.Cfg, cs.drv, buf, err); d != "" {
+		if d := oracle.C10Sub(cs.c.Cfg, cs.drv, buf, err, cs.c.Clean && !cs.tainted); d != "" {
 			w.fail(cs, "C10", "numeric", d)
 			return
 		}
